@@ -3,9 +3,15 @@
 package staticsources
 
 import (
+	"context"
 	"fmt"
 	"strings"
 	"testing"
+	"testing/synctest"
+
+	"github.com/bluenviron/mediamtx/internal/conf"
+	"github.com/bluenviron/mediamtx/internal/defs"
+	"github.com/bluenviron/mediamtx/internal/logger"
 
 	"github.com/bluenviron/mediamtx/internal/forward"
 	"github.com/bluenviron/mediamtx/internal/verifutil"
@@ -38,11 +44,81 @@ func verifC42FmtMatches(m []string) string {
 	return "m=" + strings.Join(p, ",")
 }
 
+// ---- the glue between a client's query and resolveSource: the real staticsources.Handler ----
+//
+//	hnd <templateHex> m=<matches> <event>/<event>/…      event = a.<queryHex>.<retries>.<reloadTemplateHex or _>
+//
+// One history on ONE Handler: per event Start(true, query), observe the ResolvedSource the source instance
+// is given, optionally deliver a configuration reload with a new source template, let `retries` runs fail
+// (each is followed by retryPause and a re-creation), Stop. Everything runs in a testing/synctest bubble
+// (fake clock: the 5 s retryPause costs nothing). The source instance is a stub that records what it is
+// given; Initialize() is the real one (it only chooses the instance and creates the channels).
+// Answer: runs of an activation joined by `,`, activations by `|`.
+
+var verifC42T *testing.T
+
+type verifC42Stub struct {
+	seen chan string
+	fail chan struct{}
+}
+
+func (verifC42Stub) Log(logger.Level, string, ...any)      {}
+func (verifC42Stub) APISourceDescribe() *defs.APIPathSource { return nil }
+func (st verifC42Stub) Run(p defs.StaticSourceRunParams) error {
+	st.seen <- p.ResolvedSource
+	select {
+	case <-p.Context.Done():
+		return fmt.Errorf("terminated")
+	case <-st.fail:
+		return fmt.Errorf("verif: run failed")
+	}
+}
+
+type verifC42Parent struct{}
+
+func (verifC42Parent) Log(logger.Level, string, ...any) {}
+func (verifC42Parent) StaticSourceHandlerSetReady(context.Context, defs.PathSourceStaticSetReadyReq) {
+}
+func (verifC42Parent) StaticSourceHandlerSetNotReady(context.Context, defs.PathSourceStaticSetNotReadyReq) {
+}
+
+func verifC42Handler(tmpl string, matches []string, events string) string {
+	var acts []string
+	synctest.Test(verifC42T, func(*testing.T) {
+		st := verifC42Stub{seen: make(chan string), fail: make(chan struct{})}
+		h := &Handler{Conf: &conf.Path{Source: "rpiCamera"}, Matches: matches, Parent: verifC42Parent{}}
+		h.Initialize()
+		h.Conf = &conf.Path{Source: tmpl, SourceOnDemand: true}
+		h.instance = st
+		for _, e := range strings.Split(events, "/") {
+			f := strings.Split(e, ".")
+			if len(f) != 4 || f[0] != "a" {
+				panic("verif: bad hnd event " + e)
+			}
+			h.Start(true, verifutil.UnHexS(f[1]))
+			runs := []string{verifutil.HexS(<-st.seen)}
+			if f[3] != "_" {
+				h.ReloadConf(&conf.Path{Source: verifutil.UnHexS(f[3]), SourceOnDemand: true})
+				synctest.Wait()
+			}
+			for i := 0; i < verifutil.Atoi(f[2]); i++ {
+				st.fail <- struct{}{}
+				runs = append(runs, verifutil.HexS(<-st.seen))
+			}
+			h.Stop("verif")
+			acts = append(acts, strings.Join(runs, ","))
+		}
+	})
+	return strings.Join(acts, "|")
+}
+
 func verifC42Exec(op string) string {
 	f := strings.Fields(op)
 	switch f[0] {
 	case "reset":
 		return "ok"
+	case "hnd":
+		return verifC42Handler(verifutil.UnHexS(f[1]), verifC42Matches(f[2]), f[3])
 	case "src":
 		return verifutil.HexS(resolveSource(verifutil.UnHexS(f[1]), verifC42Matches(f[3]), verifutil.UnHexS(f[2])))
 	case "dst":
@@ -201,17 +277,91 @@ func verifC42Gen1(r *verifutil.Rand, i int, thorough bool) string {
 	return fmt.Sprintf("dst %s %s %s", verifutil.HexS(tmpl), verifutil.HexS(p), verifC42FmtMatches(matches))
 }
 
+// queries as clients send them: mostly NOT in url.Values.Encode canonical form
+func verifC42Query(r *verifutil.Rand) string {
+	switch r.Intn(10) {
+	case 0:
+		return ""
+	case 1:
+		return r.Pick("who=first", "who=second", "user=a&pass=b", "token="+fmt.Sprint(r.Intn(100000)))
+	case 2:
+		return r.Pick("b=2&a=1", "z=1&y=2&x=3", "a=1&a=2", "b&a", "k", "k=", "=v", "a=1&&b=2", "&", "a=1&")
+	case 3:
+		return r.Pick("t=2024-02-29T12:00:00Z", "p=/a/b", "v=$G1", "v=$MTX_QUERY", "l=a,b,c", "u=me@host", "x=a+b", "s=a b", "e=é", "h=#frag")
+	case 4:
+		return r.Pick("a=1;b=2", "a=%zz", "%", "a=%2", "a=%41", "a=%2F", "a=b=c", "?a=1", "a=1?b=2", "a\nb=1")
+	default:
+		return verifC42AnyValue(r)
+	}
+}
+
+func verifC42GenHandler(r *verifutil.Rand) string {
+	k := r.Intn(3)
+	matches := []string{verifC42PathValue(r)}
+	for j := 0; j < k; j++ {
+		matches = append(matches, verifC42PathValue(r))
+	}
+	tmpl := func() string {
+		t := r.Pick("rtsp://", "rtmp://", "http://", "srt://", "") + verifC42Template(r, k, true, r.Intn(2))
+		if r.Chance(2, 3) {
+			t += r.Pick("?", "&q=", "/", "?streamid=read:$G1&") + "$MTX_QUERY"
+		}
+		return t
+	}
+	n := 1 + r.Intn(4)
+	ev := make([]string, n)
+	for j := range ev {
+		retries := 0
+		if r.Chance(1, 3) {
+			retries = 1 + r.Intn(2)
+		}
+		reload := "_"
+		if r.Chance(1, 6) {
+			reload = verifutil.HexS(tmpl())
+		}
+		ev[j] = fmt.Sprintf("a.%s.%d.%s", verifutil.HexS(verifC42Query(r)), retries, reload)
+	}
+	return fmt.Sprintf("hnd %s %s %s", verifutil.HexS(tmpl()), verifC42FmtMatches(matches), strings.Join(ev, "/"))
+}
+
 func verifC42Gen(r *verifutil.Rand, i int, thorough bool) []string {
+	// round-2 regressions: a second activation with another query; a query that is not in canonical form
+	switch i {
+	case 9:
+		return []string{"hnd " + verifutil.HexS("rtsp://cam/$G1?$MTX_QUERY") + " " + verifC42FmtMatches([]string{"p1", "1"}) +
+			" a." + verifutil.HexS("who=first") + ".0._/a." + verifutil.HexS("who=second") + ".1._"}
+	case 10:
+		return []string{"hnd " + verifutil.HexS("rtsp://cam/s?$MTX_QUERY") + " " + verifC42FmtMatches([]string{"p"}) +
+			" a." + verifutil.HexS("t=2024-02-29T12:00:00Z&b=/x,$G1&a&c=1;d=%zz") + ".0._"}
+	}
+	if i%8 == 3 {
+		return []string{verifC42GenHandler(r)}
+	}
 	return []string{verifC42Gen1(r, i, thorough)} // props/C42.json says "stateless"
 }
 
 func TestVerifC42(t *testing.T) {
+	verifC42T = t
 	verifutil.Main(t, &verifutil.Harness{
 		ID: "C42", Exec: verifC42Exec, Gen: verifC42Gen, Quick: 8000, Thorough: 300000,
 		Class: func(op, impl string) string {
 			f := strings.Fields(op)
 			if len(f) < 4 {
 				return f[0]
+			}
+			if f[0] == "hnd" {
+				n := strings.Count(f[3], "/") + 1
+				c := fmt.Sprintf("hnd/%d-activations", n)
+				if strings.Contains(impl, ",") {
+					c += "+retries"
+				}
+				for _, e := range strings.Split(f[3], "/") {
+					if !strings.HasSuffix(e, "._") {
+						c += "+reload"
+						break
+					}
+				}
+				return c
 			}
 			tm := verifutil.UnHexS(f[1])
 			n := strings.Count(tm, "$")
